@@ -936,12 +936,43 @@ func c20(c *core.Ctx, r *core.Report) {
 	// R5b: the singleton registry is built on the concurrent set, the registries on sync2.Map
 	concSet := c.Func("util/list", "NewConcurrentSets")
 	for _, T := range c.Implementors(c.Iface("container", "SingletonComponentRegistry")) {
-		st, _ := T.Underlying().(*types.Struct)
-		okF := st != nil
-		for i := 0; st != nil && i < st.NumFields(); i++ {
-			ts := st.Field(i).Type().String()
-			if strings.HasPrefix(ts, "map[") {
-				okF = false
+		st0, _ := T.Underlying().(*types.Struct)
+		okF := st0 != nil
+		// the state: the type's own fields and those of the unexported structs of its package it is layered on
+		type stateHolder struct {
+			T  *types.Named
+			st *types.Struct
+		}
+		holders := []stateHolder{}
+		var addHolder func(n *types.Named, depth int)
+		addHolder = func(n *types.Named, depth int) {
+			s, _ := n.Underlying().(*types.Struct)
+			if s == nil {
+				return
+			}
+			for _, h := range holders {
+				if h.T == n {
+					return
+				}
+			}
+			holders = append(holders, stateHolder{n, s})
+			for i := 0; depth < 2 && i < s.NumFields(); i++ {
+				if fn := core.NamedOf(derefType(s.Field(i).Type())); fn != nil && fn.Obj().Pkg() == T.Obj().Pkg() && !fn.Obj().Exported() && fn.TypeArgs().Len() == 0 {
+					if _, isStruct := fn.Underlying().(*types.Struct); isStruct && !concurrentContainer(s.Field(i).Type(), 0) {
+						addHolder(fn, depth+1)
+					}
+				}
+			}
+		}
+		if st0 != nil {
+			addHolder(T, 0)
+		}
+		for _, h := range holders {
+			for i := 0; i < h.st.NumFields(); i++ {
+				ts := h.st.Field(i).Type().String()
+				if strings.HasPrefix(ts, "map[") {
+					okF = false
+				}
 			}
 		}
 		// the in-creation set: every field of a set-like interface type (or of the concurrent set's own type) is
@@ -989,36 +1020,39 @@ func c20(c *core.Ctx, r *core.Report) {
 			}
 			return all && n > 0
 		}
-		for i := 0; st != nil && i < st.NumFields(); i++ {
-			ft := st.Field(i).Type()
-			if concT != nil && core.NamedOf(ft) == concT {
-				usesConc = true // declared with the concurrent variant's concrete type
-				continue
-			}
-			if _, isIface := ft.Underlying().(*types.Interface); !isIface && concurrentContainer(ft, 0) && core.NamedOf(derefType(ft)) != nil && !strings.HasSuffix(core.NamedOf(derefType(ft)).Obj().Pkg().Path(), "util/sync2") {
-				usesConc = true // a set type of the package's own whose whole state is concurrent containers
-				continue
-			}
-			it, isIface := ft.Underlying().(*types.Interface)
-			if !isIface || concT == nil || !types.Implements(types.NewPointer(concT), it) {
-				continue
-			}
-			setLike := false
-			for k := 0; k < it.NumMethods(); k++ {
-				setLike = setLike || it.Method(k).Name() == "Exists"
-			}
-			if !setLike {
-				continue
-			}
-			stores, _ := c.FieldAccesses(T, st.Field(i).Name())
-			ok := len(stores) > 0
-			for _, s := range stores {
-				ok = ok && fromConc(s.Store.Val, 0)
-			}
-			if ok {
-				usesConc = true
-			} else {
-				okF = false
+		for _, h := range holders {
+			T, st := h.T, h.st
+			for i := 0; st != nil && i < st.NumFields(); i++ {
+				ft := st.Field(i).Type()
+				if concT != nil && core.NamedOf(ft) == concT {
+					usesConc = true // declared with the concurrent variant's concrete type
+					continue
+				}
+				if _, isIface := ft.Underlying().(*types.Interface); !isIface && concurrentContainer(ft, 0) && core.NamedOf(derefType(ft)) != nil && !strings.HasSuffix(core.NamedOf(derefType(ft)).Obj().Pkg().Path(), "util/sync2") {
+					usesConc = true // a set type of the package's own whose whole state is concurrent containers
+					continue
+				}
+				it, isIface := ft.Underlying().(*types.Interface)
+				if !isIface || concT == nil || !types.Implements(types.NewPointer(concT), it) {
+					continue
+				}
+				setLike := false
+				for k := 0; k < it.NumMethods(); k++ {
+					setLike = setLike || it.Method(k).Name() == "Exists"
+				}
+				if !setLike {
+					continue
+				}
+				stores, _ := c.FieldAccesses(T, st.Field(i).Name())
+				ok := len(stores) > 0
+				for _, s := range stores {
+					ok = ok && fromConc(s.Store.Val, 0)
+				}
+				if ok {
+					usesConc = true
+				} else {
+					okF = false
+				}
 			}
 		}
 		r.Check(okF && usesConc, "C20.R5", "registry-state:"+T.Obj().Name(), c.Pos(T.Obj().Pos()), "the singleton cache has no plain map field and its in-creation set is the concurrent variant")
